@@ -97,6 +97,8 @@ def evaluate_enc(rep, cases):
         jf = {go_float_str(f): go_json_float(f) for f in fl}
         gops.append({"op": "format", "id": i, "format": "json", "encode": w})
         mops.append({"op": "jsonenc", "id": i, "docs": w, "jf": jf})
+        gops.append({"op": "format", "id": f"p{i}", "format": "json-pretty", "encode": w})
+        mops.append({"op": "jsonenc", "id": f"p{i}", "docs": w, "jf": jf, "pretty": True})
     go, mo = run_go(gops), run_model(mops)
     bad = 0
     for i, c in enumerate(cases):
@@ -111,8 +113,12 @@ def evaluate_enc(rep, cases):
         else:
             got = base64.b64decode(g["bytes"]).decode("utf-8", "surrogateescape")
             rep.count("jsonenc:bytes-compared")
+            gp, mp = go.get(f"p{i}") or {}, mo.get(f"p{i}") or {}
+            gotp = base64.b64decode(gp["bytes"]).decode("utf-8", "surrogateescape") if "bytes" in gp else None
             if got != m["ok"]:
                 d = f"JSON output differs from the model's writer: impl={got!r:.120} model={m['ok']!r:.120}"
+            elif gotp != mp.get("ok"):
+                d = f"json-pretty output differs from the model's indented writer: impl={gotp!r:.160} model={str(mp.get('ok'))!r:.160}"
             else:
                 # and an independent reader gets the value back
                 try:
